@@ -29,7 +29,7 @@ def cases(draw, mode, nums=("frac",), tmax=2):
     t = draw(st.integers(1, tmax))
     return {"curve": c, "t": t, "mode": mode, "via": draw(st.sampled_from(["method", "setter"])),
             "twin_first": draw(st.integers(0, 2)) == 0,
-            "tolerance": draw(st.sampled_from(["default", "default", "none"])),
+            "tolerance": draw(st.sampled_from(["default", "none"])),
             "badtimes": draw(st.sampled_from([0, -1, "1.5", "a"]))}
 
 
@@ -266,7 +266,31 @@ def check_generic(case, out):
             if a != b:
                 out.fail("forced-reduction-moves-knot-values", klass,
                          f"degree_decrease({t}, None) on U={ref.U} P={ref.P} w={ref.w}: value at knot {z} {a} -> {b}")
-                break
+                return
+        if ref.w is None and lib.is_exact(c["num"]):
+            # "the constrained best approximation": the residual is L2-orthogonal to every element of the lower
+            # space that vanishes at all remaining knots (decided exactly, as in C11)
+            nodes = oracle.breaks(newU)
+            nt = len(newU) - newp - 1
+            Bn = [oracle.basis_row(newU, newp, newp, z) for z in nodes]
+            if oracle.rank(Bn) < len(nodes):
+                out.cls("forced:constraints-dependent")
+                return
+            free = oracle.nullspace(Bn, nt)
+            out.cls(f"forced:free-directions={min(len(free), 3)}")
+            bku = oracle.union_breaks(ref.U, newU)
+            for coefs in free:
+                gs = State(newU, newp, [(x,) for x in coefs], None, True)
+                gf = lambda u, gs=gs: oracle.ceval(gs, u)[0]  # noqa: E731
+                for k in range(ref.dim):
+                    rf = lambda u, k=k: oracle.ceval(ref, u)[k] - oracle.ceval(after, u)[k]  # noqa: E731
+                    val = oracle.integral_product(rf, ref.p, gf, newp, bku)
+                    if val != 0:
+                        out.fail("forced-reduction-not-best-approximation", klass,
+                                 f"degree_decrease({t}, None) on U={ref.U} P={ref.P}: the residual is not orthogonal to the "
+                                 f"element {coefs} of the degree-{newp} space that vanishes at every remaining knot "
+                                 f"(int (C-D)*g = {val}); D: P={after.P}")
+                        return
 
 
 FACETS = [
